@@ -9,7 +9,7 @@
    the items of the result are the disjoint union of the instruction graphs of exactly the addresses reachable
    from the roots.  "Entry block at the function address" and recover_lang are open. *)
 From Coq Require Import ZArith List Bool NArith Lia.
-From Falcon Require Import Base.Res IL.Const IL.Expr IL.Func Lift.Lang Lift.Recover Lift.C06Check.
+From Falcon Require Import Base.Res IL.Const IL.Expr IL.Func Cfg.SOps Cfg.SProofs Cfg.MergeProofs Cfg.MergeLift Lift.Lang Lift.Recover Lift.C06Check.
 Import ListNotations.
 Local Open Scope Z_scope.
 
@@ -516,3 +516,23 @@ Section Spec.
       + destruct Ix as [E|[]]. injection E as <- <-. unfold graph_at. rewrite Pa. reflexivity.
   Qed.
 End Spec.
+
+(* ------------------------------------------------------------------ the final merge (composition with C15) *)
+(* [U] translate_function_extended INCLUDING its final merge: whenever the merge-free model returns a function whose
+   static view passes the executable test merge_ready, the complete model returns a function too (merge does not
+   fail) with the same address and exactly the same language (Lift/Lang.v) as the merge-free one.
+   Uses Cfg/MergeLift.v merge_flang / cfg_inv_sinv (C15). *)
+Theorem recover_full_lang tb fa manual f : recover tb fa manual = Ok f ->
+  merge_ready (static_view (f_cfg f)) = true ->
+  exists f', recover_full tb fa manual = Ok f' /\ f_addr f' = fa /\
+             forall w, lang (f_cfg f') w <-> lang (static_view (f_cfg f)) w.
+Proof.
+  intros H R. unfold merge_ready in R. apply andb_prop in R as [R R3]. apply andb_prop in R as [R1 R2].
+  apply Z.leb_le in R2. rewrite forallb_forall in R3.
+  assert (S : sinv (static_view (f_cfg f))).
+  { apply cfg_inv_sinv; [exact R1 | exact R2 | intros b Ib; apply Z.leb_le; apply R3; exact Ib]. }
+  destruct (merge_flang _ S) as (M1 & _ & M3).
+  unfold recover_full. rewrite H. cbn [bind].
+  destruct (s_merge (static_view (f_cfg f))) as [g' r] eqn:E. cbn [fst snd] in M1, M3. subst r.
+  exists (mkfunc fa g' None). split; [reflexivity|]. split; [reflexivity | exact M3].
+Qed.
